@@ -326,6 +326,21 @@ def check_normalize(rep: Report, ix):
 
     f = ix.func(BASE, "GridBase.normalize_point")
     rep.saw("functions", f.ref)
+    # the folding / reflection is done by in-place arithmetic on the converted array: the conversion of the caller's point must
+    # produce floating-point numbers (integer coordinates `[3, 4]` are legitimate input; an integer array truncates every folded
+    # value it is assigned) -- the symbolic interpretation below is blind to dtypes, so this is decided at the conversion site
+    pname = f.node.args.args[1].arg
+    convs = [st for st in ast.walk(f.node) if isinstance(st, ast.Assign) and len(st.targets) == 1 and isinstance(st.targets[0], ast.Name) and st.targets[0].id == pname and isinstance(st.value, ast.Call) and dotted(st.value.func) in ("np.asarray", "np.array", "np.asanyarray", "np.atleast_1d", "np.asfarray")]
+    if not convs:
+        raise AnalysisError(f"{f.ref}: conversion of `{pname}` to an array not found")
+    conv = min(convs, key=lambda st: st.lineno)
+    dt = next((kw.value for kw in conv.value.keywords if kw.arg == "dtype"), None)
+    if dt is None and len(conv.value.args) >= 2:
+        dt = conv.value.args[1]
+    ok_dt = dotted(conv.value.func) == "np.asfarray" or (dt is not None and ast.unparse(dt) in ("np.double", "float", "np.float64", "np.float_", "'float'", '"float"', "np.longdouble", "'d'", '"d"'))
+    rep.oblige("normalize_point converts the point to floating point before the in-place folding", ok_dt, ast.unparse(conv))
+    if not ok_dt:
+        rep.violation("C12.normalize-point", f"{f.ref}::conversion-dtype", f"`{ast.unparse(conv)}` keeps the dtype of the caller's point: for integer coordinates the folded / reflected values are assigned into an integer array and truncated (and bounds that are not integers are lost), so points are not mapped into the grid", line=conv.lineno)
     m = f.module
     scope_vars = {n: ns.Opaque(n) for n in list(m.imports) + list(m.functions) + list(m.classes) + list(m.assigns) if "." not in n}
     scope_vars["np"] = ns.NP
